@@ -45,6 +45,8 @@ type Chain struct {
 	SendHook   func(tx *wire.MsgTx) error
 	NotifyHook func(call int, addrs []btcutil.Address) error
 	FilterHook func(call int) error
+	// FilterReqHook additionally sees the height of the first block of the request.
+	FilterReqHook func(call int, firstHeight int32) error
 	// DuringRescan runs inside a Rescan, after the scan range was fixed and
 	// before RescanFinished is emitted; it may extend the chain.
 	DuringRescan func()
@@ -309,9 +311,15 @@ func (c *Chain) FilterBlocks(req *chain.FilterBlocksRequest) (*chain.FilterBlock
 	c.filterCalls++
 	n := c.filterCalls
 	hook := c.FilterHook
+	rhook := c.FilterReqHook
 	c.mu.Unlock()
 	if hook != nil {
 		if err := hook(n); err != nil {
+			return nil, err
+		}
+	}
+	if rhook != nil && len(req.Blocks) > 0 {
+		if err := rhook(n, req.Blocks[0].Height); err != nil {
 			return nil, err
 		}
 	}
